@@ -146,6 +146,12 @@ class SymbolicExpression(Generic[T], ABC):
 
     def _add_conclusion_(self, conclusion: Conclusion):
         self._conclusion_.add(conclusion)
+        # A query that is given a conclusion is a rule description from now on, such that its selected variables are
+        # inferred by the conclusions instead of ranging over the known instances (a block that adds no conclusion leaves
+        # the query as it was).
+        description = self._root_._child_ if isinstance(self._root_, ResultQuantifier) else self._root_
+        if isinstance(description, QueryObjectDescriptor):
+            description.rule_mode = True
 
     @lru_cache(maxsize=None)
     def _required_variables_from_child_(self, child: Optional[SymbolicExpression] = None, when_true: bool = True):
@@ -1915,12 +1921,6 @@ def symbolic_mode(query: Optional[SymbolicExpression] = None, mode: EQLMode = EQ
     try:
         if query is not None:
             query.__enter__(in_rule_mode=True)
-            if mode is EQLMode.Rule:
-                # Rules are being added to the query: its description is a rule description from now on, such that its
-                # selected variables are inferred by the conclusions instead of ranging over the known instances.
-                description = query._child_ if isinstance(query, ResultQuantifier) else query
-                if isinstance(description, QueryObjectDescriptor):
-                    description.rule_mode = True
         _set_symbolic_mode(mode)
         yield SymbolicExpression._current_parent_()
     finally:
